@@ -74,13 +74,40 @@ theorem q_le_min (o : UpOpts) (n : Int) (den : Nat) :
 theorem q_le_max (o : UpOpts) (n : Int) (den : Nat) :
     Q.le ⟨n, den⟩ ⟨(o.maxScaleN : Int), o.maxScaleD⟩ = decide (n * o.maxScaleD ≤ (o.maxScaleN : Int) * den) := rfl
 
-theorem gen_fingerprintUptime (o : UpOpts) (hD : o.Dom) (frag : Bool) (flags a b : Nat) (now rcv : Int) :
-    Gen.fingerprintUptime o frag (tcpType flags) a b now rcv
+/-- reference transcription of `fingerprint_uptime` in the translator's vocabulary (exact rationals `Q`, Python integer
+    operations); `uptimeRef_eq_model` ties it to the model once, `gen_fingerprintUptime` compares what the translator
+    prints from the working tree with it -/
+def fingerprintUptimeRef (o : UpOpts) (isFragment : Bool) (t : Nat) (tsPrev : Nat) (tsNow : Nat) (now : Int) (received : Int) : Option (Option Int × Option (Q × Int × Int × Int)) :=
+  if (!(validUptime isFragment t)) then
+    none
+  else
+    if ((!(tsNow != 0)) || (!(tsPrev != 0))) then
+      (some ((none : Option Int), (none : Option (Q × Int × Int × Int))))
+    else
+      let ms_diff := (now - received)
+      let ts_diff := (Int.emod (((tsNow : Nat) : Int) - ((tsPrev : Nat) : Int)) 4294967296)
+      let ts_diff_inv := (Int.emod (-ts_diff - 1) 4294967296)
+      if ((!((decide (o.minWait ≤ ms_diff)) && (decide (ms_diff ≤ o.maxWait)))) || ((decide (ts_diff < (5 : Int))) || ((decide (ms_diff < o.grace)) && (Q.lt (Q.ofInt (Int.fdiv ts_diff_inv (1000 : Int))) (Q.div (Q.mk (o.maxScaleN : Int) o.maxScaleD) (Q.ofInt o.grace)))))) then
+        (some ((none : Option Int), (none : Option (Q × Int × Int × Int))))
+      else
+        let raw_frequency : Q :=
+          if (decide (ts_diff > ts_diff_inv)) then
+            let raw_frequency := (Q.div (Q.mul (Q.ofInt ts_diff_inv) (Q.neg (Q.mk (1000) 1))) (Q.ofInt ms_diff))
+            (raw_frequency)
+          else
+            let raw_frequency := (Q.div (Q.mul (Q.ofInt ts_diff) (Q.mk (1000) 1)) (Q.ofInt ms_diff))
+            (raw_frequency)
+        if (!((Q.le (Q.mk (o.minScaleN : Int) o.minScaleD) raw_frequency) && (Q.le raw_frequency (Q.mk (o.maxScaleN : Int) o.maxScaleD)))) then
+          (some ((if (t != 2) then (some (-1)) else none), (none : Option (Q × Int × Int × Int))))
+        else
+          let uptime := (P0f.Gen.uptimePostInit tsNow raw_frequency)
+          (some ((some uptime.2.1), (some uptime)))
+
+
+theorem uptimeRef_eq_model (o : UpOpts) (hD : o.Dom) (frag : Bool) (flags a b : Nat) (now rcv : Int) :
+    fingerprintUptimeRef o frag (tcpType flags) a b now rcv
       = ofUpOut (fingerprintUptime o flags frag a b (now - rcv)) := by
-  first
-  | (unfold Gen.fingerprintUptime fingerprintUptimeFields; unfold fingerprintUptime; rw [tcpType_idem])
-  | (unfold Gen.fingerprintUptime fingerprintUptime
-     rw [gen_validUptime]
+  (  unfold fingerprintUptimeRef fingerprintUptime
      simp only [emod_tsDiff]
      by_cases hv : validUptime frag (tcpType flags) = true
      · simp only [hv, Bool.not_true, Bool.false_eq_true, if_false]
@@ -156,6 +183,42 @@ theorem gen_fingerprintUptime (o : UpOpts) (hD : o.Dom) (frag : Bool) (flags a b
                by_cases ht : tcpType flags = 2 <;> simp [ht, ofUpOut]
      · have hv' : validUptime frag (tcpType flags) = false := by simpa using hv
        simp [hv', ofUpOut])
+
+
+theorem fingerprintUptime_type_idem (o : UpOpts) (flags : Nat) (frag : Bool) (a b : Nat) (ms : Int) :
+    fingerprintUptime o (tcpType flags) frag a b ms = fingerprintUptime o flags frag a b ms := by
+  unfold fingerprintUptime; rw [tcpType_idem]
+
+theorem emod32_range (x : Int) : 0 ≤ Int.emod x 4294967296 ∧ Int.emod x 4294967296 < 4294967296 :=
+  ⟨Int.emod_nonneg _ (by decide), Int.emod_lt_of_pos _ (by decide)⟩
+
+theorem gen_uptime_eq_ref (o : UpOpts) (frag : Bool) (t a b : Nat) (now rcv : Int) :
+    Gen.fingerprintUptime o frag t a b now rcv = fingerprintUptimeRef o frag t a b now rcv := by
+  have hr1 := emod32_range (((b : Nat) : Int) - ((a : Nat) : Int))
+  first
+  | (unfold Gen.fingerprintUptime fingerprintUptimeRef
+     simp only [gen_validUptime]
+     done)
+  | (unfold Gen.fingerprintUptime fingerprintUptimeRef
+     simp only [gen_validUptime]
+     grind)
+  | (unfold Gen.fingerprintUptime fingerprintUptimeRef
+     simp only [gen_validUptime]
+     have hinv : Int.emod (-(Int.emod (((b : Nat) : Int) - ((a : Nat) : Int)) 4294967296) - 1) 4294967296
+         = 4294967295 - Int.emod (((b : Nat) : Int) - ((a : Nat) : Int)) 4294967296 := by
+       generalize Int.emod (((b : Nat) : Int) - ((a : Nat) : Int)) 4294967296 = x at *
+       show (-x - 1) % 4294967296 = _
+       omega
+     simp only [hinv]
+     grind)
+
+/-- `fingerprint_uptime` as printed from the source = the model's (C13) -/
+theorem gen_fingerprintUptime (o : UpOpts) (hD : o.Dom) (frag : Bool) (flags a b : Nat) (now rcv : Int) :
+    Gen.fingerprintUptime o frag (tcpType flags) a b now rcv
+      = ofUpOut (fingerprintUptime o flags frag a b (now - rcv)) := by
+  first
+  | (unfold Gen.fingerprintUptime fingerprintUptimeFields; rw [fingerprintUptime_type_idem])
+  | (rw [gen_uptime_eq_ref]; exact uptimeRef_eq_model o hD frag flags a b now rcv)
 
 /-- **C13 against the source text**: `fingerprint_uptime` as printed from the working tree equals the rational-arithmetic
     reading of the property (floats read as exact rationals), for all timestamps, clocks, types and thresholds in the
